@@ -16,8 +16,8 @@ from mc.refs import ofwire as W
 HS_KINDS = ("hello", "features", "desc", "barrier", "barrier-unsup")
 ASYNC_KINDS = ("ps-add", "ps-mod", "ps-del", "echo", "pktin", "err-xid", "err-code")
 # which incoming messages make a controller that follows the handshake write to the socket
-SENDS_IN_HANDSHAKE = ("hello", "features", "echo")
-SENDS_WHEN_UP = ("hello", "echo")
+SENDS_IN_HANDSHAKE = ("hello", "features", "echo", "echo-pad")
+SENDS_WHEN_UP = ("hello", "echo", "echo-pad")
 
 
 def mac (dpid, port):
@@ -73,6 +73,7 @@ class Peer (object):
     self.barrier_xid = None     # the first barrier request = the handshake's
     self.barrier_raw = None
     self.hello_seen = False
+    self.ports = (1, 2)         # port numbers listed in the features reply (48 bytes each)
 
   def absorb (self, data):
     """Bytes the controller wrote.  Returns the list of message type names."""
@@ -105,7 +106,7 @@ class Peer (object):
 
   def build (self, kind, serial=0):
     if kind == "hello": return W.hello(0x0c09aaaa)
-    if kind == "features": return features_reply(self.features_xid, self.dpid)
+    if kind == "features": return features_reply(self.features_xid, self.dpid, self.ports)
     if kind == "desc": return desc_stats_reply(self.desc_xid)
     if kind == "barrier": return barrier_reply(self.barrier_xid)
     if kind == "barrier-unsup":
@@ -115,6 +116,7 @@ class Peer (object):
       r, port, s = ps_ident(kind, serial)
       return port_status(r, port, s, self.dpid)
     if kind == "echo": return W.echo_request(0x0c09e000 + serial, b"ping%d" % serial)
+    if kind == "echo-pad": return W.echo_request(0x0c09f000 + serial, b"\0" * serial)    # serial = body length
     if kind == "pktin": return packet_in(serial)
     if kind == "err-xid":
       # right type/code, but about some other request
